@@ -181,7 +181,7 @@ def _run(ctx):
             pos += n
         return out
 
-    flag_cycle = [["--quiet"], ["-q"], [], ["--log-level", "ERROR"], ["--quiet"], []]
+    flag_cycle = [["--quiet"], ["-q"], [], ["--log-level", "ERROR"], ["-v"], ["--quiet"], [], ["--log-level", "DEBUG"], ["--verbose"]]
 
     def invoke(args, data):
         path = os.path.join(scratch, "pkts.bin")
